@@ -997,6 +997,92 @@ where
     }
 }
 
+//
+// Verification hooks: mock clock and popularity estimate
+//
+#[cfg(mini_moka_verif)]
+impl<K, V, S> Cache<K, V, S>
+where
+    K: Hash + Eq,
+    S: BuildHasher + Clone,
+{
+    /// Installs a mock expiration clock and returns the handle that advances it.
+    pub fn verif_install_mock_clock(&mut self) -> crate::verif::MockClock {
+        let (clock, mock) = Clock::verif_mock();
+        self.expiration_clock = Some(clock);
+        crate::verif::MockClock::new(mock)
+    }
+
+    /// Describes the complete internal state. Read-only.
+    pub fn verif_snapshot(
+        &self,
+        key_id: impl Fn(&K) -> u64,
+        value_id: impl Fn(&V) -> u64,
+    ) -> crate::verif::Snapshot {
+        use crate::verif::{snap_deque, snap_sketch, EntrySnap, NodeSnap, Snapshot};
+
+        let mut entries: Vec<_> = self
+            .cache
+            .iter()
+            .map(|(k, entry)| EntrySnap {
+                key: key_id(k),
+                value: value_id(&entry.value),
+                entry_addr: entry as *const ValueEntry<K, V> as usize,
+                info_addr: 0,
+                weight: entry.policy_weight(),
+                // Timestamps live in the deque nodes; they are reported there so
+                // that no node pointer is dereferenced here.
+                last_accessed: None,
+                last_modified: None,
+                dirty: false,
+                admitted: entry.access_order_q_node().is_some(),
+                ao_node: entry.access_order_q_node().map(|n| {
+                    let (p, tag) = n.decompose();
+                    (p.as_ptr() as usize, tag)
+                }),
+                wo_node: entry.write_order_q_node().map(|p| p.as_ptr() as usize),
+            })
+            .collect();
+        entries.sort_by_key(|e| e.key);
+
+        let ao = |e: &KeyHashDate<K>, addr: usize| NodeSnap {
+            addr,
+            key: key_id(&e.key),
+            hash: Some(e.hash),
+            info_addr: 0,
+            timestamp: e.timestamp.map(|t| t.verif_std()),
+        };
+        let wo = |e: &KeyDate<K>, addr: usize| NodeSnap {
+            addr,
+            key: key_id(&e.key),
+            hash: None,
+            info_addr: 0,
+            timestamp: e.timestamp.map(|t| t.verif_std()),
+        };
+
+        Snapshot {
+            entries,
+            window: snap_deque(&self.deques.window, ao),
+            probation: snap_deque(&self.deques.probation, ao),
+            protected: snap_deque(&self.deques.protected, ao),
+            write_order: snap_deque(&self.deques.write_order, wo),
+            entry_count: self.entry_count,
+            weighted_size: self.weighted_size,
+            sketch: snap_sketch(&self.frequency_sketch, self.frequency_sketch_enabled),
+            ..Default::default()
+        }
+    }
+
+    /// The popularity estimate admission would read for `key` right now.
+    pub fn verif_estimate<Q>(&self, key: &Q) -> u8
+    where
+        Rc<K>: Borrow<Q>,
+        Q: Hash + Eq + ?Sized,
+    {
+        self.frequency_sketch.frequency(self.hash(key))
+    }
+}
+
 #[derive(Default)]
 struct EntrySizeAndFrequency {
     weight: u64,
